@@ -213,6 +213,29 @@ def run(ctx):
         c = describe(jobs[other[0]], res[other[0]])
         ctx.violation("control", {"what": "returned lines / pushes / counters differ from the documented effect of stop, skip, advance or last (executable model Match/Ctl.v, "
                                           "whose behaviour theorems C13_* characterise)", "case": c, "more": [describe(jobs[i], res[i]) for i in other[1:4]]})
+    # the blank final record: the matcher runs on it once more, frozen, so that last() can fire — the other components do nothing there, not even
+    # as the look-ahead of an onmatch-qualified last()
+    import json as _json
+    import runloop
+    fz_jobs = []
+    for fi, rows in enumerate([[["id", "a"], ["r1", "1"], ["r2", "2"], ["r3", "3"], []], [["id", "a"], ["r1", "1"], [], ["r3", "3"], ["r4", "4"], ["r5", "5"], []],
+                               [["id", "a"], ["r1", "1"], []]]):
+        for ti, (scan, body) in enumerate([("*", 'push("p0", line_number()) last.onmatch.nocontrib() -> push("lasts", line_number())'),
+                                           ("1*", 'last.onmatch.nocontrib() -> push("lasts", line_number()) push("p0", line_number()) @c = count_lines()'),
+                                           ("*", 'push("p0", line_number()) last.onmatch() -> push("lasts", line_number())'),
+                                           ("0*", 'push("p0", line_number()) yes() last.nocontrib() -> push("lasts", line_number())')]):
+            fname = f"c13fz_{fi}_{ti}.csv"
+            fz_jobs.append({"text": f"${fname}[{scan}][ {body} ]", "rows": rows, "fname": fname, "method": (fi + ti) % 3, "k": 0, "policy": ["collect", "print"], "lo": 1 if scan == "1*" else 0})
+    fz_res = pmap(ctx, runloop.real_run, fz_jobs, chunksize=4)
+    fz_bad = []
+    for j, o in zip(fz_jobs, fz_res):
+        want = [k for k in range(j["lo"], len(j["rows"])) if j["rows"][k]]
+        got = None if o["exc"] else _json.loads(o["vars"]).get("p0")
+        if got != want:
+            fz_bad.append({"csvpath": j["text"], "rows": j["rows"], "entry_point": ["collect", "next", "fast_forward"][j["method"]], "pushed_on_lines": got, "expected": want, "exc": o["exc"]})
+    if fz_bad:
+        ctx.violation("frozen-final-record", {"what": "a component other than last() acted on the blank final record (the matcher's extra, frozen evaluation that lets last() fire): "
+                                                      "push(\"p0\", line_number()) must record the scanned non-blank lines and nothing else", "case": fz_bad[0], "more": fz_bad[1:4]})
     fired = {repr(j[:4]) for j, o in zip(jobs, res) if not o["exc"] and (o["stopped"] or any(True for _ in o["vars"]))}
     # the translator tie: Scanner.includes / Scanner.is_last as written in the source of the tree under test, regenerated and
     # (when the text differs from the checked-in Scan/ScanSrc.v) re-proved equal to the model
@@ -237,7 +260,7 @@ def run(ctx):
                 "with interior/trailing blank records, 15% in return-mode no-matches (quick: first 1800 programs of the shuffled enumeration; thorough: all x 6 files). "
                 "Non-trivial = distinct case that ran without exception and pushed or stopped.",
         "samples": [describe(jobs[0], res[0]), describe(jobs[len(jobs) // 2], res[len(jobs) // 2])],
-        "programs": len(progs), "exceptions": sum(1 for o in res if o["exc"]),
+        "programs": len(progs), "exceptions": sum(1 for o in res if o["exc"]), "frozen_final_record_runs": len(fz_jobs),
         "traces_validated_against_impl": len(jobs) - len(clean_bad),
         "correspondence": f"clean model == implementation on {len(jobs) - len(clean_bad)}/{len(jobs)}; with switch skip_last_leaks on: {len(jobs) - len(quirk_bad)}/{len(jobs)}",
     })
